@@ -80,7 +80,11 @@ let run_case (case : string) : string =
         let spec_bad = (match expect with Some (_, r') -> show_out name r' <> text | None -> true) in
         let wake_bad = ver_changed &&
                        Hashtbl.fold (fun k was acc -> acc || (was && (try Hashtbl.find registered k with Not_found -> false))) before false in
-        text ^ show_wakes w ^ (if spec_bad then " ok:spec=0" else "") ^ (if wake_bad then " ok:wake=0" else "")) ops in
+        let expect_text = (match expect with Some (_, r') -> show_out name r' | None -> "") in
+        let counts_bad = spec_bad && name = "counts" in
+        let end_bad = spec_bad && (name = "upgrade" || (name = "poll" && (expect_text = "N" || text = "N"))) in
+        text ^ show_wakes w ^ (if spec_bad then " ok:spec=0" else "") ^ (if counts_bad then " ok:counts=0" else "")
+        ^ (if end_bad then " ok:endspec=0" else "") ^ (if wake_bad then " ok:wake=0" else "")) ops in
   String.concat " ; " res ^ String.concat "" (List.map (fun c -> " class=" ^ c) !classes)
 
 let run_line (line : string) = print_string (run_case line); print_newline ()
